@@ -58,3 +58,9 @@ impl Archive {
     /// harness helper: archives are told apart by this value
     pub(crate) fn verif_set_offset(&mut self, v: u64) { self.archive_offset = v; }
 }
+
+/// façade for harnesses of dependent crates (storm-ffi attaches this module as `pub`): an archive with empty
+/// 4-slot tables around the in-memory file model
+pub fn verif_empty_archive() -> Archive {
+    fab_archive(HashTable::new(4).unwrap(), BlockTable::new(1).unwrap(), 0)
+}
